@@ -25,14 +25,13 @@ struct OSys : vf::SysBase {
            ASSOCN, DISSN, ASSOCE, DISSE, SETNIDX, ADDNIDX, SETEIDX, ADDEIDX, G_CREATE, G_FROMNODE, G_DELETE };
   struct Op { K k; int a, b, c; };
   bool dir0; int flavour, KN, KE, NN, EE, KI;
-  std::vector<Op> ops; std::vector<int> hist;
+  std::vector<Op> ops; int depth = 0;
   std::vector<NR> N; std::vector<ER> E;
   std::unique_ptr<Obs> o; OModel m;
 
-  std::string part() const { return m.g.directed ? "obs:dir" : "obs:undir"; }
+  // the observer layer has no mode-dependent code: its signatures carry no mode (the graph layer's do)
+  std::string part() const { return "obs"; }
   std::string gpart() const { return m.g.directed ? "graph:dir" : "graph:undir"; }
-  std::string key() const { return std::string("O") + (dir0 ? "d" : "u") + str(flavour) + "," + str(KN) + "," + str(KE) + "," + str(NN) + "," + str(EE) + "," + str(KI); }
-  std::unique_ptr<OSys> fresh() const { return std::unique_ptr<OSys>(new OSys(dir0, flavour, KN, KE, NN, EE, KI)); }
 
   OSys(bool directed, int fl, int kn, int ke, int nn, int ee, int ki) : dir0(directed), flavour(fl), KN(kn), KE(ke), NN(nn), EE(ee), KI(ki) {
     for (int i = 0; i < KN; ++i) N.push_back(NR(new NObj{i}));   // allocated in label order
@@ -44,22 +43,30 @@ struct OSys : vf::SysBase {
     for (int a = 0; a < KN; ++a) for (int b = 0; b < KN; ++b) if (a != b) ops.push_back({UNLINK, a, b, 0});
     for (int i = 0; i < KN; ++i) ops.push_back({DELETE, i, 0, 0});
     ops.push_back({COPY, 0, 0, 0});
+    // flavour 0 "topology": link / setRoot / direction changes on top of the common create/unlink/delete/copy alphabet
+    // flavour 1 "association": associate / dissociate, and nodes and edges made directly on the subject graph (no object)
+    // flavour 2 "index": explicit and allocated indices (dissociate included: it keeps the index, deletion must forget it)
     if (flavour == 0) {
       for (int a = 0; a < KN; ++a) for (int b = 0; b < KN; ++b) if (a != b) for (int e = -1; e < KE; ++e) ops.push_back({LINK, a, b, e});
       for (int i = 0; i < KN; ++i) ops.push_back({SETROOT, i, 0, 0});
       ops.push_back({G_MKDIR, 0, 0, 0}); ops.push_back({G_MKUNDIR, 0, 0, 0});
-    } else {
+    }
+    if (flavour == 1) {
       for (int i = 0; i < KN; ++i) for (int id = 0; id <= NN; ++id) ops.push_back({ASSOCN, i, id, 0});
-      for (int i = 0; i < KN; ++i) ops.push_back({DISSN, i, 0, 0});
       for (int j = 0; j < KE; ++j) for (int id = 0; id <= EE; ++id) ops.push_back({ASSOCE, j, id, 0});
+      ops.push_back({G_CREATE, 0, 0, 0});
+      for (int id = 0; id < NN; ++id) ops.push_back({G_FROMNODE, id, 0, 0});
+      for (int id = 0; id < NN; ++id) ops.push_back({G_DELETE, id, 0, 0});
+    }
+    if (flavour == 1 || flavour == 2) {
+      for (int i = 0; i < KN; ++i) ops.push_back({DISSN, i, 0, 0});
       for (int j = 0; j < KE; ++j) ops.push_back({DISSE, j, 0, 0});
+    }
+    if (flavour == 2) {
       for (int i = 0; i < KN; ++i) for (int x = 0; x < KI; ++x) ops.push_back({SETNIDX, i, x, 0});
       for (int i = 0; i < KN; ++i) ops.push_back({ADDNIDX, i, 0, 0});
       for (int j = 0; j < KE; ++j) for (int x = 0; x < KI; ++x) ops.push_back({SETEIDX, j, x, 0});
       for (int j = 0; j < KE; ++j) ops.push_back({ADDEIDX, j, 0, 0});
-      ops.push_back({G_CREATE, 0, 0, 0});
-      for (int id = 0; id < NN; ++id) ops.push_back({G_FROMNODE, id, 0, 0});
-      for (int id = 0; id < NN; ++id) ops.push_back({G_DELETE, id, 0, 0});
     }
   }
   int nops() const { return (int)ops.size(); }
@@ -140,7 +147,14 @@ struct OSys : vf::SysBase {
     }
   }
   bool enabled(int i) {
-    const Op& p = ops[i]; if (expect(p) == MUST_RAISE) return true;
+    const Op& p = ops[i];
+    if (expect(p) == MUST_RAISE) {
+      // the objects of a pool are interchangeable: a single-object operation on an object that is not in the graph is tried with
+      // the lowest-numbered such object only
+      if (p.k == DELETE || p.k == SETROOT || p.k == DISSN) { for (int l = 0; l < p.a; ++l) if (!hasN(l)) return false; }
+      if (p.k == DISSE) { for (int l = 0; l < p.a; ++l) if (!hasE(l)) return false; }
+      return true;
+    }
     int dn = 0, de = 0;
     switch (p.k) { case CREATE: case G_CREATE: dn = 1; break; case CREATE_FROM: case G_FROMNODE: dn = 1; de = 1; break; case LINK: de = 1; break; default: break; }
     return (int)m.g.nextN + dn <= NN && (int)m.g.nextE + de <= EE;
@@ -196,7 +210,8 @@ struct OSys : vf::SysBase {
     const Op p = ops[i];
     Expect ex; std::string cls = classify(p, ex);
     StepCtx k{s, part(), cls, ""};
-    std::string before = audit ? dumpImpl() : std::string();
+    std::string before = audit ? dumpImpl() : std::string(), beforeRef = audit ? m.proj() : std::string();
+    bool first = depth == 0; ++depth;
     if (audit) k.ctx = "state [" + m.proj() + "] then " + opname(i);
     if (p.k == COPY) { if (audit) copyCheck(k, before); return; }
     Outcome out = RETURNED; std::string what; U ret = 0;
@@ -271,6 +286,8 @@ struct OSys : vf::SysBase {
     if (a2 != OModel::mp(m.edgeOf)) { sfail(k, "edge-association-differs-from-reference", "implementation {" + a2 + "} reference {" + OModel::mp(m.edgeOf) + "}", true); return; }
     if (a3 != OModel::mp(m.nIdx)) { sfail(k, "node-index-differs-from-reference", "implementation {" + a3 + "} reference {" + OModel::mp(m.nIdx) + "}", true); return; }
     if (a4 != OModel::mp(m.eIdx)) { sfail(k, "edge-index-differs-from-reference", "implementation {" + a4 + "} reference {" + OModel::mp(m.eIdx) + "}", true); return; }
+    if (!first && after == before && m.proj() == beforeRef) return;   // queries are a function of the state: audited on every transition entering it
+    s.tag("state-audited");
     Q gq{s, gpart(), "state [" + m.proj() + "]"};
     auditGraphQueries(*o->subjectGraph_, m.g, gq);
     Q q{s, part(), "state [" + m.proj() + "]"};
@@ -315,6 +332,9 @@ struct OSys : vf::SysBase {
     if (allNIdx) qList<U>(q, "getAllNodesIndexes", "()", [&] { return cx.getAllNodesIndexes(); }, nix);
     if (allEIdx) qList<U>(q, "getAllEdgesIndexes", "()", [&] { return cx.getAllEdgesIndexes(); }, eix);
     int someAssociated = allN.empty() ? -1 : allN[0];
+    int firstAbsentN = -1, firstAbsentE = -1;
+    for (int i = KN - 1; i >= 0; --i) if (!hasN(i)) firstAbsentN = i;
+    for (int j = KE - 1; j >= 0; --j) if (!hasE(j)) firstAbsentE = j;
     for (int i = 0; i < KN; ++i) {
       NR ni = N[i]; std::string a = "(" + nn(i) + ")";
       qVal<bool>(q, "hasNode(obj)", a, [&] { return cx.hasNode(ni); }, hasN(i));
@@ -362,7 +382,7 @@ struct OSys : vf::SysBase {
           w = eidxs(ieo, ok); if (ok) qList<U>(q, "getIncomingEdges(index)", ax, [&] { return cx.getIncomingEdges(xi); }, w);
           qVal<bool>(q, "isLeaf(index)", ax, [&] { return cx.isLeaf(xi); }, g.distinctNeighbours(id) <= 1);
         }
-      } else {
+      } else if (i == firstAbsentN) {   // interchangeable objects: the absent-object queries are made with the lowest-numbered absent object
         std::string ab = a + " (object not in the graph)";
         qRaise(q, "getNodeGraphid", ab, [&] { cx.getNodeGraphid(ni); });
         qRaise(q, "getOutgoingNeighbors(obj)", ab, [&] { cx.getOutgoingNeighbors(ni); });
@@ -393,7 +413,7 @@ struct OSys : vf::SysBase {
         qVal<U>(q, "getEdgeGraphid", a, [&] { return cx.getEdgeGraphid(ej); }, id);
         qVal<int>(q, "getEdgeFromGraphid", "(" + str(id) + ")", [&] { return elabel(cx.getEdgeFromGraphid(id)); }, j);
         qVal<std::string>(q, "getNodes(edge obj)", a, [&] { auto p = cx.getNodes(ej); return str(nlabel(p.first)) + "," + str(nlabel(p.second)); }, str(m.objOfNode(tb.first)) + "," + str(m.objOfNode(tb.second)));
-      } else {
+      } else if (j == firstAbsentE) {
         qRaise(q, "getEdgeGraphid", a + " (object not in the graph)", [&] { cx.getEdgeGraphid(ej); });
         qRaise(q, "getNodes(edge obj)", a + " (object not in the graph)", [&] { cx.getNodes(ej); });
       }
@@ -418,7 +438,8 @@ struct OSys : vf::SysBase {
     const Obs& x = *o; std::string h = std::string(how) + ": ";
     if (c.subjectGraph_ != x.subjectGraph_) { /* sharing the subject graph is what the code does; an own graph would be fine too */ }
     if (!c.subjectGraph_->observers_.count(static_cast<GraphObserver*>(&c))) sfail(k, "copy-not-registered", h + "the copy is not registered with its subject graph", false);
-    if (c.NToGraphid_.size() != x.NToGraphid_.size() || c.EToGraphid_.size() != x.EToGraphid_.size() || c.NToIndex_.size() != x.NToIndex_.size() || c.EToIndex_.size() != x.EToIndex_.size())
+    // (indices of objects that are not in the graph are not relations of the graph: the copy may drop them, and does)
+    if (c.NToGraphid_.size() != x.NToGraphid_.size() || c.EToGraphid_.size() != x.EToGraphid_.size())
       sfail(k, "copy-relations-differ", h + "map sizes differ: nodes " + str(c.NToGraphid_.size()) + "/" + str(x.NToGraphid_.size()) + " edges " + str(c.EToGraphid_.size()) + "/" + str(x.EToGraphid_.size()), false);
     for (auto& kv : m.nodeOf) {
       NR src = N[kv.first]; NR cp = c.getNodeFromGraphid(kv.second);
@@ -430,9 +451,14 @@ struct OSys : vf::SysBase {
         if (c.hasNodeIndex(cp) != (m.nIdx.count(kv.first) != 0) || (c.hasNodeIndex(cp) && (c.getNodeIndex(cp) != m.nIdx.at(kv.first) || c.getNode(c.getNodeIndex(cp)) != cp))) sfail(k, "copy-relations-differ", h + "node index differs", false);
         auto pay = [](const std::vector<NR>& v) { std::vector<int> r; for (auto& z : v) r.push_back(z ? z->label : -1); return sorted(r); };
         auto epay = [](const std::vector<ER>& v) { std::vector<int> r; for (auto& z : v) r.push_back(z ? z->label : -1); return sorted(r); };
-        if (pay(c.getOutgoingNeighbors(cp)) != pay(x.getOutgoingNeighbors(src)) || pay(c.getIncomingNeighbors(cp)) != pay(x.getIncomingNeighbors(src))) sfail(k, "copy-relations-differ", h + "neighbours of the copied object differ", false);
-        if (epay(c.getOutgoingEdges(cp)) != epay(x.getOutgoingEdges(src))) sfail(k, "copy-relations-differ", h + "edges of the copied object differ", false);
-        for (auto& z : c.getOutgoingNeighbors(cp)) if (nlabel(z) != -2) sfail(k, "copy-shares-objects", h + "a neighbour list of the copy returns the source's object", false);
+        // relations through the public queries; when the source's own query raises, that is reported by the query audit, not here
+        bool srcOk = true; std::vector<int> so, si, se;
+        try { so = pay(x.getOutgoingNeighbors(src)); si = pay(x.getIncomingNeighbors(src)); se = epay(x.getOutgoingEdges(src)); } catch (std::exception&) { srcOk = false; }
+        if (srcOk) {
+          if (pay(c.getOutgoingNeighbors(cp)) != so || pay(c.getIncomingNeighbors(cp)) != si) sfail(k, "copy-relations-differ", h + "neighbours of the copied object differ", false);
+          if (epay(c.getOutgoingEdges(cp)) != se) sfail(k, "copy-relations-differ", h + "edges of the copied object differ", false);
+          for (auto& z : c.getOutgoingNeighbors(cp)) if (nlabel(z) != -2) sfail(k, "copy-shares-objects", h + "a neighbour list of the copy returns the source's object", false);
+        }
       } catch (std::exception& e) { sfail(k, "copy-relations-differ", h + "query on the copy raised '" + line1(e.what()) + "'", false); }
     }
     for (auto& kv : m.edgeOf) {
@@ -442,7 +468,7 @@ struct OSys : vf::SysBase {
       if (cp->label != src->label) sfail(k, "copy-relations-differ", h + "payload of the object at edge id " + str(kv.second) + " differs", false);
       try {
         if (c.getEdgeGraphid(cp) != kv.second) sfail(k, "copy-relations-differ", h + "edge object -> id differs", false);
-        if (c.hasEdgeIndex(cp) != (m.eIdx.count(kv.first) != 0) || (c.hasEdgeIndex(cp) && c.getEdgeIndex(cp) != m.eIdx.at(kv.first))) sfail(k, "copy-relations-differ", h + "edge index differs", false);
+        if (c.hasEdgeIndex(cp) != (m.eIdx.count(kv.first) != 0) || (c.hasEdgeIndex(cp) && (c.getEdgeIndex(cp) != m.eIdx.at(kv.first) || c.getEdge(c.getEdgeIndex(cp)) != cp))) sfail(k, "copy-relations-differ", h + "edge index differs", false);
         auto a = c.getNodes(cp); auto b = x.getNodes(src);
         if ((a.first ? a.first->label : -1) != (b.first ? b.first->label : -1) || (a.second ? a.second->label : -1) != (b.second ? b.second->label : -1)) sfail(k, "copy-relations-differ", h + "end points of the copied edge object differ", false);
       } catch (std::exception& e) { sfail(k, "copy-relations-differ", h + "query on the copy raised '" + line1(e.what()) + "'", false); }
@@ -459,20 +485,23 @@ struct OSys : vf::SysBase {
     if (dumpImpl() != before) sfail(k, "copy-changed-source", "after creating and destroying copies the source is [" + dumpImpl() + "]", true);
     k.s.tag(k.part + " copy");
   }
-  void apply(int i, vf::Case& c) { applyRemote(*this, i, c); }
+  void apply(int i, vf::Case& c) { applyLocal(*this, i, c); }
 };
 
 void obsSpaces(vf::Runner& R, bool th, double CT) {
   struct Cfg { bool dir; int fl, kn, ke, nn, ee, ki, depth; };
   std::vector<Cfg> cfgs;
   for (int d = 1; d >= 0; --d) {
-    cfgs.push_back({d != 0, 0, 3, 2, 4, 4, 0, th ? 7 : 5});
-    cfgs.push_back({d != 0, 1, 2, 2, 3, 3, 3, th ? 7 : 5});
+    cfgs.push_back({d != 0, 0, 3, 2, 4, 4, 0, th ? 6 : 4});
+    cfgs.push_back({d != 0, 1, 2, 2, 3, 3, 0, th ? 7 : 5});
+    cfgs.push_back({d != 0, 2, 2, 2, 3, 3, 2, th ? 7 : 5});
   }
   for (auto& c : cfgs) {
     OSys proto(c.dir, c.fl, c.kn, c.ke, c.nn, c.ee, c.ki);
-    std::string name = std::string(c.fl == 0 ? "obs-topology:" : "obs-association:") + (c.dir ? "dir" : "undir") + ":N" + str(c.kn) + ":E" + str(c.ke) + ":n" + str(c.nn) + ":e" + str(c.ee) + (c.fl ? ":i" + str(c.ki) : "") + ":d" + str(c.depth);
+    std::string name = std::string(c.fl == 0 ? "obs-topology:" : c.fl == 1 ? "obs-association:" : "obs-index:") + (c.dir ? "dir" : "undir") + ":N" + str(c.kn) + ":E" + str(c.ke) + ":n" + str(c.nn) + ":e" + str(c.ee) + (c.fl == 2 ? ":i" + str(c.ki) : "") + ":d" + str(c.depth);
+    if (getenv("C14_ONLY") && !strstr(name.c_str(), getenv("C14_ONLY"))) continue;
     Cfg cc = c;
     R.explore(name, c.depth, proto.nops(), [cc] { return std::unique_ptr<OSys>(new OSys(cc.dir, cc.fl, cc.kn, cc.ke, cc.nn, cc.ee, cc.ki)); }, CT);
+    recoverWitnesses(R, name);
   }
 }
